@@ -25,7 +25,10 @@ RULE = ("random nested directory graphs (as C21: mutable SDMF/MDMF directories w
         "the tree first lists all of it through the write cap, keeps every node alive, then opens the read caps); "
         "a case = one directory examined through its write cap and its read cap (cold and warm), or one walk of all "
         "descendants from the read-only root incl. write attempts (set_uri / delete on directories, overwrite on mutable "
-        "files) that must be refused and change nothing; non-trivial = the directory has a child linked by write cap / "
+        "files) that must be refused and change nothing; every packed rwcapdata field is recomputed independently "
+        "(salt = H(rw_uri) per child, key = H(salt, parent writekey), AES-CTR, HMAC) and an adversary holding the read "
+        "cap, the packed bytes and one child's write cap tries to recover its siblings' (shared salt / key-stream xor); "
+        "non-trivial = the directory has a child linked by write cap / "
         "the walk reaches at least 2 nodes")
 TRUSTED = ["lean/Tahoe/Dir/Authority.lean: term algebra and derivation rules chosen by hand to mirror _encrypt_rw_uri",
            "harness/props/c19.py helpers (re-framing of ciphertexts, cap classification by the real uri.from_string)"]
@@ -190,6 +193,39 @@ def examine_dir(ctx, W, case, label, i, o, dn, dnro, caps, writecaps, lines, imp
                 V("the write cap of a child is not recovered with the directory's write cap", "writecap-not-recovered")
         if n_ro.get_readonly_uri() != n_rw.get_readonly_uri():
             V("read handle and write handle disagree on a child's read cap", "ro-rw-readcap-differ")
+    # ---- the packed rwcapdata fields: structure as in the model (`encryptRwUri`: salt = H(rw_uri) per child,
+    #      key = KDF(salt, parent writekey), CTR ciphertext, MAC), and an adversary who holds the read cap, the
+    #      packed bytes and ONE child's write cap
+    from allmydata.util import hashutil
+    from allmydata.crypto import aes
+    writekey = dn._node.get_writekey()
+    fields = []
+    for (nb, ro, rwcap, md) in c19.parse_packed(data):
+        name = c19.nfc(nb.decode("utf-8"))
+        rw = (ch_rw[name][0].get_write_uri() if name in ch_rw else None) or b""
+        salt = hashutil.mutable_rwcap_salt_hash(rw)
+        key = hashutil.mutable_rwcap_key_hash(salt, writekey)
+        ct = aes.encrypt_data(aes.create_encryptor(key), rw)
+        expected = salt + ct + hashutil.hmac(key, salt + ct)
+        if rwcap != expected:
+            ctx.disagree("a packed rwcapdata field is not H_salt(rw_uri) || CTR(H_key(salt, writekey), rw_uri) || HMAC "
+                         "(the model's per-child encryptRwUri)", {"dir": i, "phase": label, "name": name, "case": case},
+                         "salt %s.. len %d" % (rwcap[:16].hex()[:12], len(rwcap)), "salt %s.. len %d" % (salt.hex()[:12], len(expected)))
+        fields.append((name, rw, rwcap[:16], rwcap[16:len(rwcap) - 32]))
+    real = set(writecaps)
+    for (n1, rw1, s1, c1) in fields:
+        if not rw1:
+            continue
+        for (n2, rw2, s2, c2) in fields:
+            if n2 == n1 or not rw2 or rw2 == rw1:
+                continue
+            if s1 == s2:
+                V("two children with different write caps are encrypted under one salt (one key stream)", "siblings-share-salt")
+            m = min(len(c1), len(c2), len(rw1))
+            x = bytes(a ^ b ^ c for a, b, c in zip(c2[:m], c1[:m], rw1[:m]))
+            if m >= 16 and (x == rw2[:m] or any(wc[:m] == x for wc in real)):
+                V("knowing one child's write cap, xor of two ciphertext fields yields a sibling's write cap",
+                  "sibling-writecap-recoverable", {"known": n1, "recovered": n2})
     # ---- correspondence of _unpack_contents through both handles with the model
     dm = c19.to_model_cipher(dn, data)
     strs = set()
